@@ -1062,3 +1062,8 @@ O(id="C19.send_frame_compressed", props=["C19", "C10", "C12", "C06"], entry="har
 # (C19.fragmented_message - text_frame_received_comp over two fragments with the inflate stub - ran out of memory at 24 GB even for fragments of <= 2 bytes: not registered, see DESIGN.md 8.5; harness_fragmented is kept in harness/c19_compress.c)
 _note_add("C19", "compress_buffers / send_frame_compressed: the deflate driver with a deflate contract stub (writes what fits into the 2*length output buffer, any return code): the result is a length inside the buffer or a reported failure, and send_frame then writes exactly one complete frame - compressed, or the original payload uncompressed when no compressed form is available.",
           "NOT APPLICABLE PART: the lossless round trip and corrupt-stream rejection inside zlib's inflate/deflate (input-length dependent compression loops: not encoded). Offer parsing on symbolic bytes (no verdict in 25 min). Fragmented compressed messages end to end (out of memory, DESIGN.md 8.5). Leaks of the inflate driver's buffers when a stream is rejected (read, not claimed). In the daemon the extension is never enabled (compression level 0).")
+
+for _vt, _nm in enumerate(("null", "false", "empty_string", "empty_array", "empty_object", "zero")):
+    O(id="C04.value_travels_" + _nm, props=["C04", "C01", "C03"], entry="harness_value_types_travel", defines=["VTYPE=%d" % _vt],
+      functions=["change_state", "notify_fetchers", "set_or_call", "create_routed_message"],
+      symbolic="(concrete value of the given type)", assumes=["set-up succeeds"], bounds="O owns state 's', B subscribed; O changes 's' to %s; A sets 's' to %s" % (_nm, _nm), **_scn_guard)
